@@ -29,7 +29,9 @@ def coeffs_in(ctx, root, name):
 
 
 def run(run):
-    kinds = [0, 1] if run.tier == "quick" else [0, 1, 2]
+    # full term analysis on the two small circuits; the custom-gate circuit (256-point domain) and the
+    # 4096-point domain are analysed through blinder dependency sets (large_domain_dependencies)
+    kinds = [0, 1]
     for kind in kinds:
         sb = fw.run_driver(fw.SYM_BIN, ["prove", str(kind)], run.seed)
         run.add_functions(sb["meta"]["functions"])
@@ -138,6 +140,8 @@ def run(run):
         if o.get("verified") != "Ok(())":
             run.notes.append(f"{tag}: real verifier on the symbolic proof: {o.get('verified')}")
     large_domain_dependencies(run)
+    if run.tier != "quick":
+        large_domain_dependencies(run, kind=2, tag="circuit2-custom-gates-domain256")
     run.bounds.append("one circuit with 2104 constraints (domain 4096): blinder-dependency sets of every proof "
                       "element (structural, not a solver verdict)")
     run.bounds.append(f"circuits {kinds} (tiny concrete circuits, concrete witness), one scripted challenge "
@@ -171,14 +175,13 @@ def two_run_replay(run, kind, draw, v1, v2, fields):
     return rp
 
 
-def large_domain_dependencies(run):
+def large_domain_dependencies(run, kind=3, tag="circuit3-domain4096"):
     """Domain of 4096 points (the size from which FFTs and wire blinding take their parallel paths):
     the real prover runs with all 14 blinders symbolic; reported per proof element: the set of
     blinders it depends on (structural reachability in the term arena; the 9M-node term graph is
     not handed to the solver)."""
-    sb = fw.run_driver(fw.SYM_BIN, ["prove", "3"], run.seed, extra_env={"VERIF_DEPS_ONLY": "1", "RAYON_NUM_THREADS": "4"})
+    sb = fw.run_driver(fw.SYM_BIN, ["prove", str(kind)], run.seed, extra_env={"VERIF_DEPS_ONLY": "1", "RAYON_NUM_THREADS": "4"})
     o = sb["outputs"]
-    tag = "circuit3-domain4096"
     if "error" in o or "deps" not in o:
         run.violations.append((f"{tag}/prover", _w(run, tag, f"prover: {o.get('error')}")))
         return
@@ -188,7 +191,7 @@ def large_domain_dependencies(run):
         if got != exp:
             missing = sorted(exp - got)
             f = _w(run, f"{tag}/{name}", f"{name} depends on blinders {sorted(got)}, prescribed {sorted(exp)}")
-            rp = two_run_replay(run, 3, missing[0] if missing else sorted(got)[0], 3, 5, [name])
+            rp = two_run_replay(run, kind, missing[0] if missing else sorted(got)[0], 3, 5, [name])
             ok, det = (rp({}) if missing else (True, {}))
             if ok:
                 run.violations.append((f"{tag}/{name}/blinders", f))
@@ -201,8 +204,8 @@ def large_domain_dependencies(run):
     for name in ("a_eval", "b_eval", "c_eval", "d_eval", "z_eval"):
         if not o["deps"][name]:
             run.violations.append((f"{tag}/{name}/unmasked", _w(run, f"{tag}/{name}", f"{name} depends on no blinder")))
-    run.extra["large_domain_nodes"] = o.get("nodes_in_arena")
-    run.extra["large_domain_constraints"] = o.get("n")
+    run.extra[f"{tag}/nodes"] = o.get("nodes_in_arena")
+    run.extra[f"{tag}/constraints"] = o.get("n")
 
 
 def zero_blinder_paths(run, kind, sb, ctx, nodes, comm, ev, tag):
@@ -217,6 +220,21 @@ def zero_blinder_paths(run, kind, sb, ctx, nodes, comm, ev, tag):
         t2 = f"{tag}/path-{bname}=={cval}"
         if "error" in o2:
             run.violations.append((t2, _w(run, tag, f"{bname} == {cval}: prover returned {o2['error']}")))
+            continue
+        log2 = o2.get("rng_log", [])
+        if len(log2) != 14 or any(l[0] != 64 for l in log2):
+            # a zero draw changes how much randomness is consumed (rejection sampling / re-draw):
+            # replayed on the unpatched build with the same scripted stream
+            rb = fw.run_driver(fw.REAL_BIN, ["prove", str(kind)], run.seed, extra_env={"VERIF_ZERO_BLINDERS": str(idx)})
+            rlog = rb["outputs"].get("rng_log", [])
+            bad = len(rlog) != 14 or any(l[0] != 64 for l in rlog)
+            path = _w(run, f"{tag}/{bname}-draws", {"what": f"draw {idx} == 0: the prover consumes {len(log2)} draws instead of 14",
+                                                   "symbolic_rng_log": log2, "real_rng_log": rlog, "replayed": bad,
+                                                   "driver": ["prove", str(kind)], "env": {"VERIF_ZERO_BLINDERS": str(idx)}})
+            if bad:
+                run.violations.append((f"{t2}/rng-draws", path))
+            else:
+                run.inconclusive.append(f"{t2}: symbolic run drew {len(log2)} times, the real build 14")
             continue
         ctx2 = smt.Ctx()
         n2 = ctx2.from_nodes(sb2["nodes"])
